@@ -12,6 +12,8 @@
 -/
 import Babylon.IdAlloc.LemmasUse
 import Babylon.IdAlloc.Sched
+import Babylon.IdAlloc.BoxLemmas
+import Babylon.IdAlloc.BoxSched
 
 namespace Babylon.Properties.C14
 open Babylon.IdAlloc Babylon.Gen.IdAlloc Babylon.Core
@@ -26,6 +28,9 @@ theorem gen_constants :
     popVersionBump = 0 ∧ pushVersionBump = 1 ∧ takeVersionBump = 1 ∧
     tail16 = 2 ^ 16 - 1 ∧ active16 = 2 ^ 16 - 2 ∧ tail32 = 2 ^ 32 - 1 ∧ active32 = 2 ^ 32 - 2 ∧
     sizeofVV16 = 4 ∧ sizeofVV32 = 8 ∧ valueOffset = 0 := by decide
+theorem gen_skel_box :
+    skel_box_emplace = Skel.boxEmplace ∧ skel_box_take_released = Skel.boxTake ∧
+    skel_box_finish_released = Skel.boxFinish := by decide
 
 /-- states reachable by executions that satisfy NoWrap and Cap throughout -/
 abbrev ReachGood (c : Cfg) : State → Prop := Reachable (· = State.init c) (StepR c (Good c))
@@ -149,5 +154,88 @@ example : ∃ s, ReachGood ⟨16⟩ s ∧ Quiescent s ∧ s.nv = 3 ∧ s.fl = [1
           s.owner 2 = some 1 ∧ forEachIds ⟨16⟩ s s.nv = [0, 2])) = some true := by decide
     rw [hs] at hrest
     exact ⟨s, hreach, hq, by simpa using hrest⟩
+
+/-! ## DepositBox
+
+`BStep` (Babylon/IdAlloc/Box.lean): any number of threads, each step one atomic operation of
+`emplace` / `take_released` / `finish_released` (the embedded allocator's steps are the `stepThread`
+of the IdAllocator model), any interleaving; `take` is called with ids returned by `emplace`, at any
+time, any number of times, by any threads; `finish_released` once by the winner.  `BReach c`:
+executions all of whose states satisfy `BGood c` = the 2^W-bit free-list version never wraps
+("NoWrap 32": fewer than `2^W - 1` slot recycles) and Cap. -/
+
+abbrev BReach (c : Cfg) : BState → Prop :=
+  Reachable (fun b0 => b0 = BState.init c ∧ BGood c b0) (BStepR c)
+
+/-- **One taker wins.**  For the id `(v, r)` that one `emplace(x)` returned: at every moment at most
+one `take` has succeeded, and it obtained the item `x` of that emplace; as soon as at least one
+`take(id)` has returned (successfully or not) exactly one has succeeded — in particular once all
+have returned, exactly one obtained the item. -/
+theorem box_single_taker (c : Cfg) (b : BState) (v r x : Nat) (hr : BReach c b) (hi : (v, r, x) ∈ b.issued) :
+    (b.won v r = [] ∨ b.won v r = [x]) ∧
+    (0 < (b.won v r).length + b.lost v r → b.won v r = [x]) := by
+  have hinv := (breach_inv hr).1
+  rcases hinv.stale v r x hi with h1 | h1
+  · have hw := (hinv.live v r x h1).2.2.2.1
+    refine ⟨Or.inl hw, fun hpos => ?_⟩
+    rw [hw] at hpos
+    have : 0 < b.lost v r := by simpa using hpos
+    exact absurd hw (hinv.lostWon v r this)
+  · exact ⟨Or.inr h1.1, fun _ => h1.1⟩
+
+/-- **A stale id never matches again.**  Once the item of id `(v, r)` has been taken, in every
+continuation of the execution — however often slot `v` is released, re-allocated and re-issued —
+the slot's version stays strictly above `r`, so every `take_released((v, r))` fails: its CAS does
+not match, it returns nothing and changes neither the slot nor the winners. -/
+theorem box_stale_never_matches (c : Cfg) (b b' : BState) (v r : Nat) (hr : BReach c b)
+    (htaken : b.won v r ≠ []) (hcont : BStar c b b') :
+    r < b'.ver v ∧
+    ∀ t sp b'' l, b'.bpc t = .take v r → bstep c b' t sp = some (b'', l) →
+      b''.tres t = some none ∧ b''.won = b'.won ∧ b''.ver = b'.ver := by
+  have hinv' := (breach_inv (hcont.reach hr)).1
+  have hlt := hinv'.taken_lt (hcont.won_mono v r htaken)
+  refine ⟨hlt, fun t sp b'' l hb hst => ?_⟩
+  have := bstep_take_fail hb (by omega) hst
+  exact ⟨this.1, this.2.1, this.2.2.1⟩
+
+/-- Versions issued for one slot strictly increase from round to round (`issued` lists the ids
+returned by emplace, newest first): each recycle is a push, which bumps the free-list version the
+next pop hands out. -/
+theorem box_versions_increase (c : Cfg) (b : BState) (hr : BReach c b) :
+    b.issued.Pairwise (fun new old => new.1 = old.1 → old.2.1 < new.2.1) := (breach_inv hr).1.incr
+
+/-- the embedded allocator of a reachable box state satisfies the IdAllocator invariant (so slot ids
+held by different emplaced items are distinct: `dup = false`) -/
+theorem box_alloc_unique (c : Cfg) (b : BState) (hr : BReach c b) : b.al.dup = false := (breach_inv hr).1.al.nd
+
+/-! Non-vacuity for the box: two threads race to take the id of one emplace, the loser fails, the
+winner releases, the slot is re-issued with a larger version, the stale id fails again. -/
+
+def boxDemo : List BMove :=
+  bmEmplaceMint 1 7 ++                          -- id (0, 0) for item 7
+  [.take 2 0 0, .take 3 0 0, .act 3 false, .act 2 false] ++   -- thread 3 wins, thread 2 loses
+  bmFinish 3 0 ++ bmEmplacePop 1 8 ++           -- slot 0 recycled: id (0, 1) for item 8
+  bmTake 2 0 0 ++                               -- stale id: fails
+  bmTake 2 0 1                                  -- fresh id: succeeds
+
+def boxOk (b : BState) : Bool := decide (b.al.headG + 1 < 2 ^ 32 ∧ b.al.nv ≤ 2 ^ 32 - 2)
+
+example : ∃ b, BReach ⟨32⟩ b ∧ b.issued = [(0, 1, 8), (0, 0, 7)] ∧ b.won 0 0 = [7] ∧ b.lost 0 0 = 2 ∧
+    b.won 0 1 = [8] ∧ b.ver 0 = 2 ∧ b.tres 2 = some (some 8) ∧ b.tres 3 = some (some 7) := by
+  cases hs : brun ⟨32⟩ boxOk (BState.init ⟨32⟩) boxDemo with
+  | none => exact absurd hs (by decide)
+  | some b =>
+    have hreach : BReach ⟨32⟩ b :=
+      brun_reachable (P := BGood ⟨32⟩)
+        (fun b h => by
+          simp only [boxOk, decide_eq_true_eq] at h
+          exact ⟨h.1, by simpa [Cfg.active] using h.2⟩)
+        boxDemo _ _ (Reachable.base ⟨rfl, bgood_init ⟨32⟩ (by decide)⟩) hs
+    have hrest : (brun ⟨32⟩ boxOk (BState.init ⟨32⟩) boxDemo).map
+        (fun b => decide (b.issued = [(0, 1, 8), (0, 0, 7)] ∧ b.won 0 0 = [7] ∧ b.lost 0 0 = 2 ∧
+          b.won 0 1 = [8] ∧ b.ver 0 = 2 ∧ b.tres 2 = some (some 8) ∧ b.tres 3 = some (some 7))) = some true := by
+      decide
+    rw [hs] at hrest
+    exact ⟨b, hreach, by simpa using hrest⟩
 
 end Babylon.Properties.C14
